@@ -88,6 +88,8 @@ def run(prog, chk):
 
     ownership_obligations(prog, chk, "C19.owner")
     absorbed_obligations(prog, chk, "C19.absorbed")
+    chk.rule("C19.list", "list growth: capacity, array and length change together or, when the allocation fails, not at all", floor=7)
+    list_growth_table(prog, chk, "C19.list")
 
     for fn in sorted(prog.all_functions(), key=lambda f: (f.unit, f.line)):
         d = dangling_fields(prog, fn)
@@ -122,3 +124,51 @@ def run(prog, chk):
             if not dr:
                 chk.ob("C19.dropped", fn.name, True, "every error constant stored into the status variable reaches a read", loc=fn.loc(), fn=fn,
                        nontrivial=False)
+
+
+def list_growth_table(prog, chk, rule):
+    """appendElement: the (capacity, array, length) triple changes together or not at all."""
+    from ksirules.interp import TOP, Interp, Ptr, succeed_model
+    from ksirules.model import lvalue_key, strip
+    fn = prog.fn("appendElement", "list.c")
+    lp, op = fn.params[0]["n"], fn.params[1]["n"]
+    OOM = prog.const("KSI_OUT_OF_MEMORY")
+    for (ln_, size, alloc_ok) in ((0, 0, 1), (0, 0, 0), (1, 1, 1), (1, 1, 0), (1, 4, 1), (4, 4, 1), (4, 4, 0), (2, 4, 0), (3, 4, 1)):
+        full = ln_ + 1 > size
+        if not full and not alloc_ok:
+            continue
+        inputs = {lp: Ptr("L"), op: Ptr("OBJ"), "L->pImpl": Ptr("I"), "I->arr_len": ln_, "I->arr_size": size, "I->arr": Ptr("OLD") if size else 0}
+        for k in range(ln_):
+            inputs["OLD[%d].ptr" % k] = Ptr("E%d" % k)
+            inputs["OLD[%d]" % k] = Ptr("EL%d" % k)
+
+        counts = []
+
+        def calloc(I, p, node, args, alloc_ok=alloc_ok, counts=counts):
+            counts.append(args[0])
+            return Ptr("NEW") if alloc_ok else 0
+        I = Interp(fn, inputs=inputs, call_model=succeed_model(prog, {"KSI_calloc": calloc, "KSI_free": lambda I, p, n, a: 0}), on_unknown="stop",
+                   prog=prog, loop_bound=8)
+        paths = I.run()
+        chk.paths += len(paths)
+        inst = "appendElement[len=%d,capacity=%d,%s]" % (ln_, size, "allocation ok" if alloc_ok else "allocation fails")
+        if len(paths) != 1 or paths[0].undetermined:
+            raise AnalysisBroken("appendElement: evaluation not determined for %s: %s" % (inst, [q.undetermined[:1] for q in paths]))
+        q = paths[0]
+        st = {k: [t[2] for t in q.stores(k)] for k in ("I->arr_size", "I->arr", "I->arr_len")}
+        elem = [(t[1], t[2]) for t in q.stores() if t[1].endswith(".ptr")]
+        frees = [c[2][0] for c in q.calls("KSI_free")]
+        if full and not alloc_ok:
+            ok = q.ret == OOM and not st["I->arr_size"] and not st["I->arr"] and not st["I->arr_len"] and not elem and Ptr("OLD") not in frees
+            want = "KSI_OUT_OF_MEMORY and the list exactly as before (capacity, array, length, elements)"
+        elif full:
+            ok = q.ret == 0 and len(st["I->arr_size"]) == 1 and counts == st["I->arr_size"] and isinstance(counts[0], int) and counts[0] > ln_ and \
+                st["I->arr"] == [Ptr("NEW")] and st["I->arr_len"] == [ln_ + 1] and \
+                elem[-1:] == [("NEW[%d].ptr" % ln_, Ptr("OBJ"))] and (not size or Ptr("OLD") in frees)
+            want = ("a new array of more than %d elements installed, the recorded capacity equal to the allocated count, the old array released, the object "
+                    "stored at index %d of the new array, length %d" % (ln_, ln_, ln_ + 1))
+        else:
+            ok = q.ret == 0 and not st["I->arr_size"] and not st["I->arr"] and st["I->arr_len"] == [ln_ + 1] and elem == [("OLD[%d].ptr" % ln_, Ptr("OBJ"))]
+            want = "object stored at index %d, length %d, capacity and array untouched" % (ln_, ln_ + 1)
+        chk.ob(rule, inst, ok, "expected %s; source: status %s, capacity stores %s, array stores %s, length stores %s, element stores %s, released %s"
+               % (want + " (allocated count %s)" % counts, q.ret if not isinstance(q.ret, int) else hex(q.ret), st["I->arr_size"], st["I->arr"], st["I->arr_len"], elem[-2:], frees), loc=fn.loc(), fn=fn)
